@@ -430,3 +430,22 @@ CR_ASSUME = [
     "N, olen < 2^31 (the C code casts to int)",
     "numeric kernels are abstract: deterministic functions of (window, phase)",
 ]
+
+
+def find_eoi_overrun(exe, cfg, env, span=200):
+    """search one configuration for a stream length at which the library has handed out more than round(N*orate/irate) frames before
+    end-of-input is said (everything available is taken first, with generous room).  Returns {"what", "ops"} or None."""
+    ratio = io_ratio(cfg)
+    for N in range(1, span):
+        est = int(N / ratio) + 50
+        ops = [create_line(cfg), "limit %d" % N, "feed %d %d 0" % (N, est)]
+        tr = run_trace(exe, ops, env, timeout=60)
+        if tr.rc != 0 or not tr.results:
+            continue
+        got = sum(int(r.get("od", 0)) for r in tr.results if "od" in r)
+        exp, near = owed_exact(N, cfg)
+        if got > exp and not near:
+            return {"what": "after %d input frames %d output frames have been delivered before end-of-input, the whole stream owes round(N*orate/irate) = %d" % (N, got, exp),
+                    "ops": ops}
+    return None
+
